@@ -6,7 +6,7 @@
    (C07/C08 say what it prints; C17 that a resolver failure is its error). *)
 From Coq Require Import List String ZArith NArith Bool.
 Import ListNotations.
-From DV Require Import Model.Save Proofs.SaveProofs Gen.SaveSrc Gen.ErrProp.
+From DV Require Import Model.Save Proofs.SaveProofs Model.Decision Gen.SaveSrc Proofs.SaveSrcProofs Gen.ErrProp.
 Local Open Scope list_scope.
 
 (* the source is what the model transcribes: save prints each file of p.Syntax in order with
@@ -18,6 +18,19 @@ Theorem C20_save_is_the_transcribed_loop :
   save_shape_ok && save_entry_points_ok && filenames_recorded_ok
   && (match List.find (fun e => String.eqb (fst e) "Package.save") err_propagation with Some (_, b) => b | None => false end) = true.
 Proof. vm_compute. reflexivity. Qed.
+
+(* ... and the body of save itself is not pinned by text but translated (Gen/SaveSrc.v: save_src, a loop
+   program of bindings, calls whose error ends the function, one loop over p.Syntax and return nil;
+   anything else is LUnknown) and proved to compute the model: for every file list, print function,
+   file-name map and write-failure pattern the successful writeFile calls of the translated source
+   are, in order, the model's log, and it ends in "return nil" exactly when the model reports no error *)
+Theorem C20_save_source_computes_the_model :
+  forall (file bytes name err : Type) (print : file -> bytes + err) (filename : file -> name)
+         (write : nat -> name -> bytes -> option err) (nobytes : bytes) (files : list file),
+  let '(acc, _, e) := lrun file (save_fails file bytes name err print filename write nobytes) save_src files 0 [] in
+  let '(log, res) := save print filename write 0 files [] in
+  writes_of file bytes name err print filename nobytes acc = log /\ (e = LDone <-> res = None) /\ e <> LStuck /\ e <> LFell.
+Proof. exact save_source_is_model. Qed.
 
 (* For every file list, every print function (files may fail to print: a resolver failure),
    every file-name map and every writeFile behaviour: what is written is exactly, in order and
@@ -51,6 +64,7 @@ Example C20_nonvacuous :
 Proof. vm_compute. reflexivity. Qed.
 
 Print Assumptions C20_save_is_the_transcribed_loop.
+Print Assumptions C20_save_source_computes_the_model.
 Print Assumptions C20_writes_exactly_the_files_before_the_first_failure.
 Print Assumptions C20_nothing_is_written_after_a_failure.
 Print Assumptions C20_error_iff_not_everything_written.
